@@ -1041,6 +1041,8 @@ class Engine:
                     t = ("fmt", spec, vkey(val))
                     self.origin[t] = ("fmt", spec, val)
                     parts.append(("sym", t))
+                elif isinstance(val, Num) and val.lin.is_const() and val.lin.k.denominator == 1:
+                    parts.append(("lit", str(int(val.lin.k))))
                 elif isinstance(val, Num):
                     t = ("str", (vkey(val),))
                     self.origin[t] = ("str", val)
@@ -1051,8 +1053,16 @@ class Engine:
                         ok = False
                         break
                     parts.extend(p)
-            out.append((s2, Str(tuple(parts)) if ok else Unk(self.fresh("fstr"))))
+            out.append((s2, self._mk_str(parts) if ok else Unk(self.fresh("fstr"))))
         return out
+
+    @staticmethod
+    def _mk_str(parts):
+        """a concatenation value; folded to a constant when every part is a literal"""
+        parts = tuple(parts)
+        if all(p[0] == "lit" for p in parts):
+            return Con("".join(p[1] for p in parts))
+        return Str(parts)
 
     def e_Name(self, fr, e, s):
         if e.id in s.env:
@@ -1315,7 +1325,9 @@ class Engine:
                 return None
             a = args[idx]
             if not spec:
-                if isinstance(a, Num):
+                if isinstance(a, Num) and a.lin.is_const() and a.lin.k.denominator == 1:
+                    parts.append(("lit", str(int(a.lin.k))))
+                elif isinstance(a, Num):
                     t = ("str", (vkey(a),))
                     self.origin[t] = ("str", a)
                     parts.append(("sym", t))
@@ -1949,7 +1961,7 @@ class Engine:
         if isinstance(base, Con) and isinstance(base.value, str) and attr == "format" and not kwargs:
             parts = self._expand_format(base.value, args)
             if parts is not None:
-                return [(s, Str(parts))]
+                return [(s, self._mk_str(parts))]
         if isinstance(base, Con) and isinstance(base.value, str) and attr == "join" and len(args) == 1 and isinstance(args[0], Tup):
             parts = []
             okj = True
